@@ -58,7 +58,10 @@ type TxnHist struct {
 	// for optimistic transactions; for pessimistic ones only when a LockKeys call succeeded on the
 	// key while the buffer entry carried the presume-not-exists flag (the check travels with the lock request).
 	InsertChecked map[string]bool
-	Done     bool
+	// InsertUncertain: a LockKeys call failed while the key carried the flag; whether the client
+	// withdrew the flag depends on where the call failed.
+	InsertUncertain map[string]bool
+	Done          bool
 }
 
 // World is everything that exists in one run.
@@ -106,7 +109,12 @@ func setKnobs(k Knobs) {
 	if k.ManagedTTLMs > 0 {
 		ttl = uint64(k.ManagedTTLMs)
 	}
+	def := uint64(3000)
+	if k.LongTTL {
+		ttl, def = 600000, 600000
+	}
 	atomic.StoreUint64(&transaction.ManagedLockTTL, ttl)
+	transaction.VerifSetDefaultLockTTL(def)
 }
 
 func newWorld(s *simkit.Sim, sc *Scenario) (*World, error) {
@@ -204,7 +212,9 @@ func copyBuf(m map[string]*string) map[string]*string {
 func (w *World) runTxn(p *TxnProg, h *TxnHist) {
 	defer func() { h.Done = true }()
 	s := w.Sim
-	time.Sleep(time.Duration(p.DelayMs) * time.Millisecond)
+	// distinct sub-millisecond offsets: no two actors act at the same simulated instant,
+	// so the order in which they reach the TSO / the transport is decided by the clock, not by the Go scheduler.
+	time.Sleep(time.Duration(p.DelayMs)*time.Millisecond + time.Duration(p.ID+1)*13*time.Microsecond)
 	store := w.Stores[p.Client]
 	ctx := context.Background()
 	h.BeginInv = s.Stamp()
@@ -227,6 +237,7 @@ func (w *World) runTxn(p *TxnProg, h *TxnHist) {
 	h.Inserted = map[string]bool{}
 	h.Locked = map[string]uint64{}
 	h.InsertChecked = map[string]bool{}
+	h.InsertUncertain = map[string]bool{}
 	for _, op := range p.Ops {
 		r := OpRes{Op: op, Own: copyBuf(h.Buf)}
 		r.Inv = s.Stamp()
@@ -357,6 +368,9 @@ func (w *World) runTxn(p *TxnProg, h *TxnHist) {
 				// presume-not-exists declaration of the keys of the call (txn.go lockKeys); what the
 				// program writes afterwards is an ordinary write.
 				for _, k := range op.Keys {
+					if h.Inserted[k] {
+						h.InsertUncertain[k] = true
+					}
 					delete(h.Inserted, k)
 				}
 			} else {
@@ -473,12 +487,28 @@ func (w *World) janitor(maxRounds int) bool {
 }
 
 func traceDigest(tr []*simkit.RPCRecord) []string {
-	out := make([]string, 0, len(tr))
+	// canonical order: by submission time, then identity (goroutines woken at the
+	// same simulated instant may submit in either order; the simulator's decisions
+	// are keyed by identity, so that order is immaterial).
+	recs := make([]*simkit.RPCRecord, 0, len(tr))
 	for _, r := range tr {
 		if r.Type == tikvrpc.CmdStoreSafeTS {
 			continue
 		}
-		out = append(out, fmt.Sprintf("%s#%d %s", r.Identity, r.Occ, r.Fate))
+		recs = append(recs, r)
+	}
+	sort.SliceStable(recs, func(i, j int) bool {
+		if recs[i].SubmitAt != recs[j].SubmitAt {
+			return recs[i].SubmitAt < recs[j].SubmitAt
+		}
+		if recs[i].Identity != recs[j].Identity {
+			return recs[i].Identity < recs[j].Identity
+		}
+		return recs[i].Occ < recs[j].Occ
+	})
+	out := make([]string, 0, len(recs))
+	for _, r := range recs {
+		out = append(out, fmt.Sprintf("%d %s#%d %s", r.SubmitAt.Microseconds(), r.Identity, r.Occ, r.Fate))
 	}
 	return out
 }
@@ -505,8 +535,55 @@ var _ = bytes.Equal
 
 func ttlOf(sc *Scenario) time.Duration {
 	ttl := 20 * time.Second
+	if sc.Knobs.LongTTL {
+		ttl = 600 * time.Second
+	}
 	if sc.Knobs.ManagedTTLMs > 0 {
 		ttl = time.Duration(sc.Knobs.ManagedTTLMs) * time.Millisecond
 	}
 	return ttl + 4*time.Second
+}
+
+// leftoverLocks lists locks in the store that belong to transactions that have ended (C06).
+func (w *World) leftoverLocks() []string {
+	ended := map[uint64]*TxnHist{}
+	for _, h := range w.Hist {
+		if h.Done && h.StartTS != 0 {
+			ended[h.StartTS] = h
+		}
+	}
+	var out []string
+	for _, l := range w.dumper.VerifDumpLocks() {
+		if h, ok := ended[l.LockVersion]; ok {
+			out = append(out, fmt.Sprintf("txn#%d %s: key %q still locked (type %v, primary %q, for_update_ts %d) after the transaction ended (%s, commit error %q) and the client's background work drained; ops: %s",
+				h.Prog.ID, modeName(h.Prog), l.Key, l.LockType, l.PrimaryLock, l.LockForUpdateTs, h.EndKind, h.CommitErr, opsSummary(h)))
+		}
+	}
+	return out
+}
+
+func modeName(p *TxnProg) string {
+	if p.Pessimistic {
+		return "pessimistic"
+	}
+	return "optimistic"
+}
+
+func opsSummary(h *TxnHist) string {
+	var sb strings.Builder
+	for _, r := range h.Ops {
+		fmt.Fprintf(&sb, "%s%v", r.Op.Kind, r.Op.Keys)
+		if r.Err != "" {
+			fmt.Fprintf(&sb, "!%s", firstN(r.Err, 30))
+		}
+		sb.WriteString(" ")
+	}
+	return sb.String()
+}
+
+func firstN(s string, n int) string {
+	if len(s) > n {
+		return s[:n]
+	}
+	return s
 }
